@@ -21,12 +21,22 @@ def build_case(rng, tier):
     m = {}
     writes = []
     fixed = rng.choice([None, None, 2, 3])
+    from trie.binary import BinaryTrie
+    shadow = BinaryTrie({})       # only to obtain hashes of nodes that exist in the store at that point of the history
     for _ in range(rng.randint(0 if rng.random() < 0.1 else 1, 7 if tier == "quick" else 14)):
         k = BX.gen_key(rng, fixed)
         v = BX.gen_value(rng)
+        if shadow.db and rng.random() < 0.2:
+            # a VALUE that is the hash of a node present in the same store (the current root, or any stored node):
+            # a value is data, never a reference
+            v = bytes(shadow.root_hash) if rng.random() < 0.5 else bytes(rng.choice(sorted(shadow.db)))
         if not BX.prefix_related(k, m):
             m[k] = v
         writes.append(("set", k, v))
+        try:
+            shadow.set(k, v)
+        except Exception:
+            pass
     return writes, m
 
 
